@@ -34,7 +34,7 @@ pub fn edge_decorate(t: &mut Tape, text: String) -> String {
 
 fn enum_len(tier: Tier) -> u32 {
     match tier {
-        Tier::Quick => 5,
+        Tier::Quick => 6,
         Tier::Thorough => 7,
     }
 }
@@ -156,7 +156,7 @@ impl PropImpl for C01 {
         "C01"
     }
     fn rule(&self) -> String {
-        "cases are UTF-8 texts: (E) every string of length <= L over 14 character-class representatives (A b - : # SP TAB LF CR e-acute euro g-clef U+0001 DEL; L=5 quick, 7 thorough), \
+        "cases are UTF-8 texts: (E) every string of length <= L over 14 character-class representatives (A b - : # SP TAB LF CR e-acute euro g-clef U+0001 DEL; L=6 quick, 7 thorough), \
          (R) random strings over a weighted 26-symbol alphabet (incl. U+FEFF, U+200B, NUL), optionally decorated with a special character at the very start or end, (M) rendered well-formed documents with 1-8 char/line edits (insert/delete/replace/duplicate/swap/truncate/CRLF/CR). \
          A case is non-trivial when it has >= 2 lines and (the tolerant reader reports an error or a character outside [A-Za-z0-9: LF] occurs); distinct by text hash, \
          random cases that also belong to the enumerated space are not counted again. label_histogram holds the (lexer mode x character class) pairs visited.".into()
@@ -165,7 +165,7 @@ impl PropImpl for C01 {
         vec!["inputs are valid UTF-8 (&str API); Read-based entry points are fed the same bytes".into()]
     }
     fn budget(&self, tier: Tier) -> Budget {
-        Budget { cases_per_lane: if tier == Tier::Quick { 4000 } else { 100_000 }, tape_max: 600, cpu_s: 10 }
+        Budget { cases_per_lane: if tier == Tier::Quick { 20000 } else { 100_000 }, tape_max: 600, cpu_s: 10 }
     }
     fn spaces(&self, tier: Tier) -> Vec<Space> {
         let l = enum_len(tier);
@@ -187,7 +187,7 @@ impl PropImpl for C01 {
         } else {
             let text = text::weighted_text(t, WEIGHTED, 300);
             let text = edge_decorate(t, text);
-            ctx.dup_of_enum = text::in_space(ALPHABET, 5, &text);
+            ctx.dup_of_enum = text::in_space(ALPHABET, 6, &text);
             Case { text, origin: "random" }
         }
     }
